@@ -283,53 +283,56 @@ def cond_merge_consumers(ix, f, node):
     return None
 
 
-def usage_of(fnode, call):
-    parent = None
+def _parent_map(fnode):
+    pm = {}
     for n in ast.walk(fnode):
         for ch in ast.iter_child_nodes(n):
-            if ch is call:
-                parent = n
-    if parent is None:
-        return "?"
-    if isinstance(parent, ast.Attribute) and parent.attr == "keys":
-        gp = None
-        for n in ast.walk(fnode):
-            for ch in ast.iter_child_nodes(n):
-                if ch is parent:
-                    gp = n
-        ggp = None
-        for n in ast.walk(fnode):
-            for ch in ast.iter_child_nodes(n):
-                if ch is gp:
-                    ggp = n
-        if isinstance(ggp, ast.Call) and isinstance(ggp.func, ast.Name) and ggp.func.id == "set":
+            pm[ch] = n
+    return pm
+
+
+def usage_of(fnode, call):
+    """How the mapping returned by index_participants() is consumed here.  Order-free uses: membership,
+    .get, conversion into a set (set(x), set(x.keys()), {*x}, {*x.keys()}), being returned or merged.
+    Anything else (iteration, list(), .items() loops) observes the order."""
+    pm = _parent_map(fnode)
+
+    def classify(node, depth=0):
+        parent = pm.get(node)
+        if parent is None or depth > 6:
+            return "?"
+        if isinstance(parent, ast.Attribute) and parent.attr in ("keys",):
+            gp = pm.get(parent)  # the call x.keys()
+            return classify(gp, depth + 1) if isinstance(gp, ast.Call) else "keys used bare"
+        if isinstance(parent, ast.Attribute) and parent.attr in ("get", "__contains__"):
+            return "get"
+        if isinstance(parent, ast.Attribute) and parent.attr == "items":
+            return "items"
+        if isinstance(parent, ast.Call) and isinstance(parent.func, ast.Name) and parent.func.id in ("set", "frozenset") and node in parent.args:
             return "set(keys)"
-        if isinstance(ggp, (ast.Set, ast.Starred)):
-            return "keys-into-set"
-        return f"keys used in {type(ggp).__name__}"
-    if isinstance(parent, ast.Return):
-        return "return"
-    if isinstance(parent, ast.Assign):
-        # local variable: all its uses must be .get / .keys() into a set / in
-        name = u(parent.targets[0])
-        uses = []
-        for n in ast.walk(fnode):
-            if isinstance(n, ast.Name) and n.id == name and isinstance(n.ctx, ast.Load):
-                p = None
-                for m in ast.walk(fnode):
-                    for ch in ast.iter_child_nodes(m):
-                        if ch is n:
-                            p = m
-                if isinstance(p, ast.Attribute) and p.attr in ("get", "keys"):
-                    uses.append("ok")
-                elif isinstance(p, ast.Attribute) and p.attr == "items":
-                    uses.append("items")
-                else:
-                    uses.append(type(p).__name__)
-        if all(x == "ok" for x in uses):
-            return "merge"
-        return f"local {name} used as {sorted(set(uses))}"
-    return type(parent).__name__
+        if isinstance(parent, ast.Starred):
+            gp = pm.get(parent)
+            return "keys-into-set" if isinstance(gp, ast.Set) else f"starred into {type(gp).__name__}"
+        if isinstance(parent, ast.Compare) and any(isinstance(o, (ast.In, ast.NotIn)) for o in parent.ops) and node in parent.comparators:
+            return "get"
+        if isinstance(parent, ast.Return):
+            return "return"
+        if isinstance(parent, ast.Assign):
+            # local variable: every load of it must itself be an order-free use
+            if len(parent.targets) != 1 or not isinstance(parent.targets[0], ast.Name):
+                return "assigned to a non-local"
+            name = parent.targets[0].id
+            uses = []
+            for n in ast.walk(fnode):
+                if isinstance(n, ast.Name) and n.id == name and isinstance(n.ctx, ast.Load):
+                    uses.append(classify(n, depth + 1))
+            bad = sorted({x for x in uses if x not in ("get", "set(keys)", "keys-into-set", "return", "merge")})
+            if not bad:
+                return "merge"
+            return f"local {name} used as {bad}"
+        return type(parent).__name__
+
+    return classify(call)
 
 
 def cond_pop_into_exception(ix, f, node):
@@ -363,7 +366,9 @@ def cond_call_index_loop(ix, f, node):
         if isinstance(s, ast.Assign):
             for t in s.targets:
                 tt = u(t)
-                if not (tt.startswith("index_sizes[") or isinstance(t, ast.Name)):
+                names_only = isinstance(t, ast.Name) or (isinstance(t, (ast.Tuple, ast.List)) and all(isinstance(x, (ast.Name, ast.Starred)) for x in t.elts))
+                sub_local = isinstance(t, ast.Subscript) and isinstance(t.value, ast.Name)  # a local table such as index_sizes[index]
+                if not (names_only or sub_local):
                     return f"body assigns {tt}"
     return None
 
